@@ -3,6 +3,7 @@ one, (G) let TLC generate inputs / behaviours, run them through the real code wi
 judge the recorded trace with the property's own relation.  The driver only classifies TLC's judgements."""
 import json
 import os
+import subprocess
 from pathlib import Path
 
 import pv
@@ -764,6 +765,19 @@ def c02(tier, replay=None):
         trace, inc = run_mc(chk, "bmc", 600 if T else 90, 8 if T else 5, T, "bmc")
     st = mc_rejects(chk, trace, {"C02"})
     n = count_runs(trace)
+    # the command-line tool end to end (btor2 text in, verdict out), incl. systems without states
+    if not replay:
+        tdir = pv.HARNESS / "target" / "mc_tool"
+        p = subprocess.run(["cargo", "build", "--offline", "-q", "-p", "mc"], cwd="/repo", env=dict(os.environ, CARGO_TARGET_DIR=str(tdir), CARGO_NET_OFFLINE="true"), capture_output=True, text=True)
+        if p.returncode != 0:
+            raise ToolError("building tools/mc failed: " + p.stderr[-1500:])
+        cli = chk.work / "cli.ndjson"
+        pv.pv(["cli", "--out", cli, "--bin", tdir / "debug" / "mc", "--systems", 240 if T else 45], env={"PATH": SOLVER_PATH + ":" + os.environ.get("PATH", "")})
+        mc_rejects(chk, cli, {"C02"})
+        nc = count_runs(cli)
+        chk.part("cli_runs", **nc)
+        n["runs"] += nc["runs"]
+        n["systems"] += nc["systems"]
     chk.cov["traces_validated_against_impl"] = n["runs"]
     chk.cov["evaluations"] = n["runs"]
     chk.cov["distinct_nontrivial"] = n["systems"]
